@@ -44,7 +44,11 @@ var targets = []string{".", "srgb", "adobergb", "prophotorgb", "displayp3", "lin
 func main() {
 	flag.StringVar(&root, "root", "", "root of the scratch copy")
 	out := flag.String("sites", "", "site table output")
+	pkgs := flag.String("pkgs", "", "comma separated package directories to instrument instead of the default colour packages")
 	flag.Parse()
+	if *pkgs != "" {
+		targets = strings.Split(*pkgs, ",")
+	}
 	if root == "" {
 		fmt.Fprintln(os.Stderr, "usage: siminstr -root DIR -sites FILE")
 		os.Exit(2)
